@@ -60,7 +60,7 @@ Proof.
   pose proof (session_flush_decodes upper oem acc im fi name now ops range im1) as SC. cbv zeta in SC. rewrite Hpg in SC.
   destruct (SC Hg Hbim Hfi Hiss ltac:(rewrite Hroot; reflexivity) Hnow Hops Hclk Hc)
     as (st & rs & content & pos & e & l & ns1 & ns2 & R1 & R2 & R3 & R4 & E1 & E2 & E3 & E4 & _ & _ & _ & E5 & E6 & E7 & E8 & E9 & E10
-        & I1 & I2 & I3 & I4 & _ & _ & _ & Felse).
+        & I1 & I2 & I3 & I4 & _ & _ & _ & Felse & _).
   rewrite Hroot in R3. symmetry in R3. apply app_eq_nil in R3. destruct R3 as [-> ->]. cbn [app] in R4.
   rewrite !v_geom_abs, Hpg in I3.
   exists st, rs, content, pos, e, l.
@@ -144,7 +144,7 @@ Proof.
   pose proof (session_core upper oem acc im fi name now ops range im1) as SC. cbv zeta in SC. rewrite Hpg in SC.
   destruct (SC Hg Hbim Hfi Hiss Hnow Hops Hclk Hc)
     as (es & ls & es1 & es2 & ne & ss' & k & pk & st1 & st2 & rs & sz2 & l2 & s'
-        & Habs & Ees & Hsh & Him1 & Hpg1 & Hscan1 & Hk & Hne & Hrw & L1 & L2 & A1 & S1 & C1 & HL & HU & P1 & P2 & Hslot
+        & Habs & Ees & Hsh & Him1 & Hpg1 & Hscan1 & Hk & Hne & Hrw & L1 & L2 & A1 & S1 & C1 & HL & HU & P1 & P2 & Hslot & _
         & Hcreate & Hst1 & Hrun & V2 & Hbf & F2 & Hrs2 & Hpg2 & _).
   rewrite Habs in Hroot. cbn [abs_fixed Abs.v_root] in Hroot. rewrite Ees in Hroot.
   change Abs.MAX_DEPTH with (S 23) in Hroot. rewrite decode_entries_S, map_app in Hroot.
